@@ -227,7 +227,12 @@ def check_set_reference(scn):
 
 # ----------------------------------------------------------------------------------------------- C14
 MALFORMED = {
-    "label": [("y with two observations", lambda a: ([a[0], a[0]], a[1])), ("y_pred with three observations", lambda a: (a[0], [a[1]] * 3))],
+    "label": [("y with two observations", lambda a: ([a[0], a[0]], a[1])), ("y_pred with three observations", lambda a: (a[0], [a[1]] * 3)),
+              # several observations in other shapes: a single 2-D row, a nested list, a one-row frame, a column
+              ("y as a 1 x 3 array", lambda a: (np.array([[a[0], a[0], a[0]]]), a[1])),
+              ("y_pred as a nested one-row list", lambda a: (a[0], [[a[1], a[1]]])),
+              ("y as a 1 x 2 DataFrame", lambda a: (pd.DataFrame([[a[0], a[0]]], columns=["u", "v"]), a[1])),
+              ("y_pred as a 3 x 1 column", lambda a: (a[0], np.array([[a[1]], [a[1]], [a[1]]])))],
     "value": [("two observations", lambda a: (np.array([[a[0]], [a[0]]]),)), ("multi-column row", lambda a: (np.array([[a[0], a[0], 1.0]]),)),
               ("multi-column list", lambda a: ([a[0], 2.0],))],
     "row": [("two observations", lambda a: (np.vstack([a[0], a[0]]),)), ("extra column", lambda a: (np.hstack([a[0], [[1.0]]]),)),
